@@ -83,6 +83,20 @@ func seq(s *simrt.Sim) {
 			s.Logf("advance %v", d)
 		case 2:
 			w := simrt.Knob(s, windowMenu...)
+			if s.Choose(10) == 9 {
+				// a query with a negative window: nothing is inside it, so every entry is older than the window and is
+				// removed like by any other query (its own return value - a sum of nothing over a negative time - is not
+				// judged; what is judged is that the removed entries do not come back for a later, wider window)
+				for _, e := range model {
+					if e.gone == "" {
+						e.gone = "expired"
+					}
+				}
+				got := h.AveragePerSecond(-grid)
+				s.Probe("query-with-negative-window")
+				s.Logf("AveragePerSecond(%v) at %v = %v", -grid, s.Now(), got)
+				continue
+			}
 			now := time.Now()
 			var sum uint64
 			revived := false
